@@ -78,9 +78,12 @@ struct alignas(32) PlA32 { uint64_t a[2]; };
 template <int K> struct PL;
 template <> struct PL<P_VOID> { typedef void type; enum { VSIZE = 0 }; };
 struct NoPayload {};
-template <> struct PL<P_U8>  { typedef uint8_t type; enum { VSIZE = 1 };
-	static type unpack(const uint8_t* b) { return b[0]; }
-	static void pack(const type& p, uint8_t* b) { b[0] = p; } };
+// a bare uint8_t payload does not compile at all: Transition{origin, destination} becomes ambiguous with
+// Transition{destination, payload} because StateID is uint8_t too -- so the 1-byte payload is a struct
+struct PlU8 { uint8_t v; };
+template <> struct PL<P_U8>  { typedef PlU8 type; enum { VSIZE = 1 };
+	static type unpack(const uint8_t* b) { type p; p.v = b[0]; return p; }
+	static void pack(const type& p, uint8_t* b) { b[0] = p.v; } };
 template <> struct PL<P_I32> { typedef int32_t type; enum { VSIZE = 4 };
 	static type unpack(const uint8_t* b) { type p; memcpy(&p, b, 4); return p; }
 	static void pack(const type& p, uint8_t* b) { memcpy(b, &p, 4); } };
